@@ -421,14 +421,25 @@ int64_t evaluate_incdec(
         } else {
             // 整数型
             int64_t old_value = it->second.value;
+            int64_t new_value = old_value;
 
             if (node->op == "++") {
-                it->second.value = static_cast<int64_t>(
-                    static_cast<uint64_t>(it->second.value) + 1);
+                new_value = static_cast<int64_t>(
+                    static_cast<uint64_t>(new_value) + 1);
             } else if (node->op == "--") {
-                it->second.value = static_cast<int64_t>(
-                    static_cast<uint64_t>(it->second.value) - 1);
+                new_value = static_cast<int64_t>(
+                    static_cast<uint64_t>(new_value) - 1);
             }
+            // same conversion as an assignment to the member
+            if (it->second.is_unsigned && new_value < 0) {
+                new_value = 0;
+            }
+            if (!it->second.is_pointer) {
+                interpreter.check_type_range(it->second.type, new_value,
+                                             obj_name + "." + member_name,
+                                             it->second.is_unsigned);
+            }
+            it->second.value = new_value;
 
             if (node->node_type == ASTNodeType::AST_PRE_INCDEC) {
                 return it->second.value;
